@@ -3,9 +3,10 @@
   Property theorems only: what `wrap_file` hands to the module template in its two modes (`Model/Pybind.lean`).
 -/
 import WrapModel.Model.Pybind
+import WrapModel.Lemmas.StrLemmas
 
 namespace WrapModel.Props.C16
-open WrapModel WrapModel.Inst WrapModel.Pybind
+open WrapModel WrapModel.Inst WrapModel.Pybind WrapModel.Spec WrapModel.Str
 
 /-- the template environment of `wrap_file` -/
 def envOf (cfg : Cfg) (moduleName : String) (submodules : Option (List String)) (im : List IDecl) : List (String × String) :=
@@ -56,5 +57,39 @@ def parseTop (arg : String) : List String :=
 
 theorem C16_cli_top : parseTop "a::b" = ["", "a", "b"] ∧ parseTop "::a::b" = ["", "a", "b"] ∧ parseTop "" = [""] ∧ parseTop "gtsam" = ["", "gtsam"] := by
   decide
+
+/-- whatever the option's text, the list handed to the wrappers starts with the global namespace `""` -/
+theorem C16_cli_top_head (arg : String) : (parseTop arg).head? = some "" := by
+  unfold parseTop
+  generalize pySplit arg "::" = parts
+  cases parts with
+  | nil => rfl
+  | cons p r =>
+    by_cases h : p.isEmpty
+    · have hp : p = "" := by simpa [String.isEmpty_iff] using h
+      simp [hp]
+    · simp [h]
+
+/-- every namespace path `n::…` (names without `:`, first one non-empty, any length) gives the same list with and
+    without the leading `::` — the unbounded statement of which `C16_cli_top` lists four instances -/
+theorem C16_cli_top_general (n : String) (ns : List String) (hne : n ≠ "")
+    (h : ∀ y ∈ n :: ns, noColon y = true) :
+    parseTop (joinWith "::" (n :: ns)) = "" :: n :: ns ∧
+    parseTop (joinWith "::" ("" :: n :: ns)) = "" :: n :: ns := by
+  constructor
+  · unfold parseTop
+    rw [pySplit_join n ns h]
+    simp [String.isEmpty_iff, hne]
+  · unfold parseTop
+    rw [pySplit_join "" (n :: ns) (by
+      intro y hy
+      rcases List.mem_cons.1 hy with rfl | hy
+      · decide
+      · exact h y hy)]
+    simp
+
+/-- the hypotheses are met by an ordinary path -/
+example : ("gtsam" : String) ≠ "" ∧ (∀ y ∈ ["gtsam", "inner"], noColon y = true) ∧
+    parseTop (joinWith "::" ["gtsam", "inner"]) = ["", "gtsam", "inner"] := by decide
 
 end WrapModel.Props.C16
